@@ -468,9 +468,10 @@ pub struct RunState {
 }
 
 /// F-08 probe for modulus 1: every `one` constructor must give the canonical value 0; the exact
-/// known wrong result is "stored representation == 1" (and then retrieve() ∈ {0, 1}: the fixed
-/// reduction corrects it, the boxed `mul_by_one` does not; inherent accessors of the boxed form hit
-/// their debug assertion in the checked profile). Anything else is an ordinary failure.
+/// known wrong result is "stored representation == 1", and then: retrieve() == 0 for the
+/// fixed-width forms (their reduction corrects it), retrieve() == 1 for the boxed form, whose
+/// inherent accessors hit their canonicity debug assertion in the checked profile. Anything else
+/// is an ordinary failure.
 fn probe_one_mod1<R: Rep>(p: &R::P, n: usize, st: &mut RunState) -> CaseResult {
     let mut one_l = vec![0u64; n];
     one_l[0] = 1;
@@ -489,19 +490,31 @@ fn probe_one_mod1<R: Rep>(p: &R::P, n: usize, st: &mut RunState) -> CaseResult {
         }
         // signature: stored representation is exactly 1 (non-canonical, >= m)
         let mut detail = format!("{}: {name} with modulus 1 stores the non-canonical representation 1 (R mod 1 = 0)", R::NAME);
-        match guard(|| x.retrieves()) {
-            Ok(rs) => {
-                for (rn, r) in rs {
-                    if r == one_l {
-                        detail.push_str(&format!("; {rn} returns 1"));
-                    } else if r != zero_l {
-                        vfail!("{}: {rn} of {name} with modulus 1 returned {}, want 0", R::NAME, hex(&r));
-                    }
+        let boxed_rep = R::NAME == "BoxedMontyForm";
+        // fixed-width reduction still corrects the value on the way out; the boxed `mul_by_one`
+        // does not (documented there as "no reduction is required")
+        let want_retr = if boxed_rep { &one_l } else { &zero_l };
+        for (rn, r) in total("retrieve of one (m = 1)", || x.retrieves())? {
+            if r != *want_retr {
+                vfail!("{}: {rn} of {name} with modulus 1 returned {}; the F-08 signature has {}", R::NAME, hex(&r), hex(want_retr));
+            }
+            if boxed_rep {
+                detail.push_str(&format!("; {rn} returns 1"));
+            }
+        }
+        match guard(|| x.accessors()) {
+            Ok(acc) => {
+                for (an, av) in acc {
+                    veq!(av, one_l, "{}: accessor {an} of {name} with modulus 1", R::NAME);
                 }
             }
             Err(pm) => {
-                vensure!(PROFILE == "dbg" && pm.contains("assert"), "{}: retrieve of {name} (m = 1) panicked: {pm}", R::NAME);
-                detail.push_str("; retrieve hits a debug assertion");
+                vensure!(
+                    boxed_rep && PROFILE == "dbg" && pm.contains("assertion failed: self.montgomery_form < self.params.modulus"),
+                    "{}: accessor of {name} (m = 1) panicked: {pm}",
+                    R::NAME
+                );
+                detail.push_str("; inherent as_montgomery()/to_montgomery() hit their canonicity debug assertion");
             }
         }
         if st.f08.is_none() {
